@@ -137,6 +137,10 @@ def build(engine):
 
 
 WHAT = {
+    'server_conform:git-fault': 'BOUNDED (executed, not proved): on the git-backed server with a shared remote, every git command of add_version / add_snapshot '
+                                'on one replica is made to fail in turn (not run / run but reported failed / this and all later commands fail), every handle '
+                                'is then restarted, and the protocol contract must hold: the interrupted version is either accepted for everyone or visible to '
+                                'nobody, with the submitted bytes; both replicas go on adding versions and read the same chain',
     'replica_exec:c18': 'BOUNDED (executed under panic capture, not proved): every public read method of Task, TaskData, WorkingSet, DependencyMap and '
                         'Replica returns normally for every task map with 0, 1 (thorough: 2) entries over 47 recognised keys / prefixes / malformed '
                         'keys and 25 hostile values (non-numeric, negative, astronomically large, out-of-calendar timestamps, unknown statuses, '
@@ -167,8 +171,9 @@ WHAT = {
 
 def run(h, prop, tier):
     engine = h['engine']
-    what = WHAT.get(engine + ':' + h.get('mode', ''), WHAT.get(engine, ''))
-    out = {'engine': engine, 'harness': engine + ('-' + h['mode'] if h.get('mode') else ''), 'mode': h.get('mode'), 'obligations': 1, 'discharged': 0, 'violations': [], 'undecided': [],
+    label = h.get('mode') or h.get('mode_key') or ''
+    what = WHAT.get(engine + ':' + label, WHAT.get(engine, ''))
+    out = {'engine': engine, 'harness': engine + ('-' + label if label else ''), 'mode': h.get('mode'), 'obligations': 1, 'discharged': 0, 'violations': [], 'undecided': [],
            'bounded': True, 'what': what,
            'trusted': ['%s: bounded execution, not a proof (rustc, SQLite, the harness in /verif/dyn/%s)' % (engine, engine)],
            'samples': [{'bounded_check': engine, 'claim': what}]}
@@ -186,7 +191,15 @@ def run(h, prop, tier):
     os.makedirs(replays, exist_ok=True)
     # /dev/shm keeps the thousands of scratch databases off the disk
     scratch = '/dev/shm/vf-%s-%d' % (engine, os.getpid()) if os.path.isdir('/dev/shm') else os.path.join(work, 'db')
-    cmd = [binary] + list(h.get('args', [])) + ['--work', scratch, '--out', replays, '--tier', tier, '--jobs', str(h.get('jobs', 12)), '--seed', os.environ.get('VERIF_SEED', '0') if os.environ.get('VERIF_SEED', '0').isdigit() else '0']
+    known_sigs = []
+    try:
+        for kf in json.load(open(os.path.join(U.VERIF, 'known_findings.json'))).get('findings', []):
+            m = kf.get('match') or {}
+            if kf.get('status') == 'open' and kf.get('property') == prop and m.get('engine') == engine and m.get('signature'):
+                known_sigs.append(m['signature'])
+    except (OSError, ValueError):
+        pass
+    cmd = [binary] + list(h.get('args', [])) + (['--known', ';;'.join(known_sigs)] if known_sigs else []) + ['--work', scratch, '--out', replays, '--tier', tier, '--jobs', str(h.get('jobs', 12)), '--seed', os.environ.get('VERIF_SEED', '0') if os.environ.get('VERIF_SEED', '0').isdigit() else '0']
     out['cmd'] = 'python3 vf/main.py dyn-build %s && build/dyn/bin/<tree-hash>/%s --tier %s' % (engine, engine, tier)
     t0 = time.time()
     try:
@@ -208,7 +221,9 @@ def run(h, prop, tier):
     out['scenarios'] = summary.get('scenarios')
     out['executed'] = summary.get('executed')
     out['outside_contract_skipped'] = summary.get('outside_contract_skipped')
-    if summary.get('executed', 0) == 0:
+    out['known_hits'] = summary.get('known_finding_hits') or {}
+    out['signatures'] = summary.get('signatures') or {}
+    if summary.get('executed', 0) == 0 and not out['known_hits']:
         out['undecided'].append('%s: no scenario was executed' % engine)
         return out
     if summary['mismatches'] == 0 and p.returncode == 0:
